@@ -64,8 +64,9 @@ fn exec(t: &[String]) -> Option<String> {
 fn shrink(t: &[String]) -> Vec<Vec<String>> {
     let Some(c) = dec(t) else { return vec![] };
     let mut out = vec![];
-    for chunks in shrink_vec(&c.chunks) { out.push(C { chunks, ..c.clone() }); }
-    for i in 0..c.chunks.len() { for ch in shrink_vec(&c.chunks[i]) { let mut d = c.clone(); d.chunks[i] = ch; out.push(d); } }
+    for chunks in shrink_vec(&c.chunks) { let n = chunks.iter().map(|c| c.iter().filter(|x| matches!(x, CI::Ok(_))).count()).sum(); out.push(C { chunks, n, rev: c.rev }); }
+    // (per-chunk shrinking only once the number of chunks is small: every candidate is a copy of the whole case)
+    if c.chunks.len() <= 200 { for i in 0..c.chunks.len() { for ch in shrink_vec(&c.chunks[i]) { let mut d = c.clone(); d.chunks[i] = ch; out.push(d); } } }
     if c.rev { out.push(C { rev: false, chunks: c.chunks.iter().map(|ch| { let mut v = ch.clone(); v.reverse(); v }).collect(), ..c.clone() }); }
     out.into_iter().filter(valid).map(|c| enc(&c)).collect()
 }
@@ -96,13 +97,28 @@ fn gen(rng: &mut Rng, tier: Tier) -> Vec<Case> {
         let n = chunks.iter().map(|c| c.iter().filter(|x| matches!(x, CI::Ok(_))).count()).sum();
         out.push(Case::new(if i % 2 == 0 { "boundary" } else { "random" }, enc(&C { rev, n, chunks })));
     }
+    // many chunk streams: just above 2^8 and 2^16 of them, one or two items each (the later chunks included)
+    let ks: &[usize] = match tier { Tier::Quick => &[257, 65_537], Tier::Thorough => &[256, 257, 300, 65_536, 65_537, 70_000] };
+    for &k in ks {
+        let rev = rng.chance(1, 3);
+        let mut tag = 0u64;
+        let chunks: Vec<Vec<CI>> = (0..k).map(|_| {
+            let len = rng.range(1, 2) as usize;
+            let mut items: Vec<SItem> = (0..len).map(|_| { tag += 1; (vec![rng.below(1000)], tag.to_be_bytes()[4..].to_vec()) }).collect();
+            items.sort_by(|a, b| a.0.cmp(&b.0));
+            if rev { items.reverse(); }
+            items.into_iter().map(CI::Ok).collect()
+        }).collect();
+        let n = chunks.iter().map(|c| c.len()).sum();
+        out.push(Case::new("many-chunks", enc(&C { rev, n, chunks })));
+    }
     out
 }
 
 pub fn prop() -> PropDef {
     PropDef {
         id: "C10",
-        rule: "corpus, then tuples of 0-6 individually sorted chunk streams of 0-6 items ((key, tag) compared by key only: ties within and across chunks; keys from 3 or 50 values; normal or reversed comparator), in half of the cases with error items placed at the first position (error while priming), in the middle, at the end, in several chunks at once; the stream is drained, two further next() calls are made after the end, len() is read. Non-trivial: >= 2 non-empty chunks. Distinct = distinct input token sequence.",
+        rule: "corpus, then tuples of 0-6 individually sorted chunk streams of 0-6 items ((key, tag) compared by key only: ties within and across chunks; keys from 3 or 50 values; normal or reversed comparator), in half of the cases with error items placed at the first position (error while priming), in the middle, at the end, in several chunks at once; the stream is drained, two further next() calls are made after the end, len() is read; and merges of 257 and 65 537 chunk streams of one or two items (thorough: 256..70 000). Non-trivial: >= 2 non-empty chunks. Distinct = distinct input token sequence.",
         observable: "merged items up to the first error (tie classes canonicalised), the first error, two next() calls after the end, len()",
         gen, exec, shrink, child: None,
     }
